@@ -43,6 +43,7 @@ fn alpha(cfg: &Cfg) -> Vec<Op> {
         c(Cub(None)),
         c(Decstbm(Some(1), Some(rows.saturating_sub(1)))),
         c(Decstbm(Some(2), Some(rows))),
+        c(Decstbm(Some(2), Some(rows.saturating_sub(1)))),
         c(sgr1(41)),
         c(sgr1(0)),
     ];
@@ -60,7 +61,7 @@ macro_rules! parts {
             sys: $sys,
             cfgs: match tier {
                 Tier::Quick => cfgs(&[(1, 1), (3, 1), (1, 2), (2, 2), (3, 3), (2, 3)], &[None]),
-                Tier::Thorough => cfgs(&[(1, 1), (1, 2), (2, 1), (3, 1), (2, 2), (3, 2), (2, 3), (3, 3), (4, 2)], &[None]),
+                Tier::Thorough => cfgs(&[(1, 1), (1, 2), (2, 1), (3, 1), (2, 2), (3, 2), (2, 3), (3, 3), (4, 2), (2, 4)], &[None]),
             },
             alphabet: &alpha,
             depth: tier.pick(4, 5),
